@@ -4,10 +4,10 @@ package main
 
 import (
 	"fmt"
-	"os"
 	"go/ast"
 	"go/token"
 	"go/types"
+	"os"
 	"strings"
 
 	"golang.org/x/tools/go/ssa"
@@ -305,6 +305,53 @@ func checkC07(c *Check) {
 		c.Cond(def, "flamego.newRouter:default-not-found", p.FuncPos(nf), "a default not-found chain is installed at construction", "no default not-found handler is installed: notFound is nil until the user sets one")
 	} else {
 		c.Anchor("router.NotFound")
+	}
+
+	// ---- R7 a plain map lookup keyed by request data may yield the zero value
+	c.Rule("R7", "E1 guard-cut", "in the routing path the result of a plain (not comma-ok) map lookup of pointer, function or interface kind is dereferenced, called or handed to sync/atomic only under a nil test: the key is request data (any method token, any path), so the lookup may miss", 1)
+	{
+		n, bad := 0, 0
+		for _, fn := range routingFuncs(p) {
+			allInstrs(fn, func(in ssa.Instruction) {
+				l, ok := in.(*ssa.Lookup)
+				if !ok || l.CommaOk {
+					return
+				}
+				if _, isMap := l.X.Type().Underlying().(*types.Map); !isMap {
+					return
+				}
+				switch l.Type().Underlying().(type) {
+				case *types.Pointer, *types.Signature, *types.Interface:
+				default:
+					return
+				}
+				n++
+				guards := edgesWhere(fn, cCmp(token.NEQ, vIs(l), vNil), true).addAll(edgesWhere(fn, cCmp(token.EQL, vIs(l), vNil), false))
+				// … or a comma-ok lookup of the same key in a table that is filled together with this one
+				// (same block, same key at registration/construction) has succeeded
+				allInstrs(fn, func(o ssa.Instruction) {
+					l2, ok := o.(*ssa.Lookup)
+					if !ok || !l2.CommaOk || l2 == l || !sameValue(l2.Index, l.Index) {
+						return
+					}
+					fa, fb := fieldOf(addrOfLoad(strip(l.X))), fieldOf(addrOfLoad(strip(l2.X)))
+					if fa == nil || fb == nil || !coPopulated(p, fa, fb) {
+						return
+					}
+					guards.addAll(edgesWhere(fn, cBool(vExtract(1, vIs(l2))), true))
+				})
+				for _, use := range nilSensitiveUses(l) {
+					if okG, _ := guardedBy(fn, guards, isInstr(use)); len(guards) > 0 && okG {
+						continue
+					}
+					bad++
+					c.Bad(p.FuncKey(fn)+":lookup-deref", p.Pos(use.Pos()), "the result of a plain map lookup ("+shortName(l.X.Type().String())+") is used here without a nil test: a key that is not in the map (any method token or path can arrive) makes the request panic before any chain runs")
+				}
+			})
+		}
+		if bad == 0 {
+			c.OK("routing-path:lookup-deref", "routing path", fmt.Sprintf("%d plain lookups of nilable kind in %d routing functions; none is used unguarded", n, len(routingFuncs(p))), 1)
+		}
 	}
 
 	// ---- R6 the chain that runs is the chosen route's own
@@ -1377,4 +1424,96 @@ func dischargeLoopBoundedIndex(fn *ssa.Function, x *ssa.IndexAddr) (discharge, b
 		return discharge{}, false
 	}
 	return discharge{"loop-bound", "x[i] with i = 0,1,… only on the edge i < len(x)"}, true
+}
+
+// nilSensitiveUses lists the instructions that panic when v is nil: dereference, field or
+// element address, call through it, invoke on it, and sync/atomic operations on it.
+func nilSensitiveUses(v ssa.Value) []ssa.Instruction {
+	var out []ssa.Instruction
+	seen := map[ssa.Value]bool{}
+	var walk func(x ssa.Value)
+	walk = func(x ssa.Value) {
+		if seen[x] {
+			return
+		}
+		seen[x] = true
+		for _, r := range referrers(x) {
+			switch u := r.(type) {
+			case *ssa.ChangeType:
+				walk(u)
+			case *ssa.UnOp:
+				if u.Op == token.MUL && u.X == x {
+					out = append(out, u)
+				}
+			case *ssa.FieldAddr:
+				if u.X == x {
+					out = append(out, u)
+				}
+			case *ssa.IndexAddr:
+				if u.X == x {
+					out = append(out, u)
+				}
+			case *ssa.Store:
+				if u.Addr == x {
+					out = append(out, u)
+				}
+			case ssa.CallInstruction:
+				cm := u.Common()
+				if cm.Value == x {
+					out = append(out, u)
+					continue
+				}
+				if strings.HasPrefix(callName(cm), "sync/atomic.") && len(cm.Args) > 0 && cm.Args[0] == x {
+					out = append(out, u)
+				}
+			}
+		}
+	}
+	walk(v)
+	return out
+}
+
+// sameValue: the same SSA value, or two loads of the same field path from the same root.
+func sameValue(a, b ssa.Value) bool {
+	a, b = strip(a), strip(b)
+	if a == b {
+		return true
+	}
+	ra, na, ok1 := fieldPath(a)
+	rb, nb, ok2 := fieldPath(b)
+	if !ok1 || !ok2 || ra != rb || len(na) != len(nb) {
+		return false
+	}
+	for i := range na {
+		if na[i] != nb[i] {
+			return false
+		}
+	}
+	return true
+}
+
+// coPopulated: every block of the module that adds an entry to the map in field a adds one under
+// the same key to the map in field b (the two tables have the same key set).
+func coPopulated(p *Prog, a, b *types.Var) bool {
+	n := 0
+	ok := true
+	for _, fn := range p.Funcs() {
+		allInstrs(fn, func(in ssa.Instruction) {
+			mu, isMU := in.(*ssa.MapUpdate)
+			if !isMU || fieldOf(addrOfLoad(strip(mu.Map))) != b {
+				return
+			}
+			n++
+			found := false
+			for _, o := range mu.Block().Instrs {
+				if mu2, isMU2 := o.(*ssa.MapUpdate); isMU2 && fieldOf(addrOfLoad(strip(mu2.Map))) == a && sameValue(mu2.Key, mu.Key) {
+					found = true
+				}
+			}
+			if !found {
+				ok = false
+			}
+		})
+	}
+	return ok && n > 0
 }
